@@ -5,6 +5,8 @@
 #include "rkcommon/containers/FlatMap.h"
 #include "rkcommon/utility/ParameterizedObject.h"
 
+#include <unordered_map>
+
 using namespace rkcommon;
 using pbt::Op;
 using pbt::Tracked;
@@ -29,7 +31,9 @@ struct Conv<std::string>
 {
   static std::string make(long long i)
   {
-    // long enough to defeat SSO for some keys
+    // the empty string is a key like any other; long enough to defeat SSO for some keys
+    if (i == 0)
+      return std::string();
     return i % 2 ? std::string("k") + std::to_string(i) : std::string("key-with-a-long-heap-allocated-name-") + std::to_string(i);
   }
   static long long back(const std::string &s)
@@ -61,6 +65,11 @@ enum
   CLEAR,
   RESERVE,
   AT_INDEX,
+  // the key argument is a reference into the map's own storage (m.erase(kv.first), m[m[k]] = v): a key is a value, where
+  // the caller's reference points must not matter
+  ERASE_ALIAS,
+  LOOKUP_ALIAS,
+  SET_ALIAS,
   NKINDS
 };
 
@@ -79,9 +88,9 @@ void flatmap_case(const std::vector<Op> &ops, pbt::Ctx &ctx)
           return (long long)i;
       return -1ll;
     };
-    bool sawReinsert = false, sawMidErase = false;
+    bool sawReinsert = false, sawMidErase = false, sawAlias = false;
     for (const Op &op : ops) {
-      long long k = op.a % 4, v = 100 + op.b * 8 + op.c;
+      long long k = op.a % 6, v = 100 + op.b * 8 + op.c;
       long long idx = find(k);
       switch (((op.k % NKINDS) + NKINDS) % NKINDS) {
       case SET:
@@ -162,6 +171,55 @@ void flatmap_case(const std::vector<Op> &ops, pbt::Ctx &ctx)
         PBT_ASSERT_MSG(threw == (i >= model.size()), "at_index(" << i << ") threw=" << threw << " size=" << model.size());
         break;
       }
+      case ERASE_ALIAS: {
+        if (model.empty())
+          break;
+        size_t i = (size_t)op.b % model.size();
+        m.erase(m.at_index(i).first);
+        if (i + 1 < model.size())
+          sawMidErase = true;
+        erasedOnce.insert(model[i].first);
+        model.erase(model.begin() + i);
+        sawAlias = true;
+        break;
+      }
+      case LOOKUP_ALIAS: {
+        if (model.empty())
+          break;
+        size_t i = (size_t)op.b % model.size();
+        const K &kr = m.at_index(i).first;
+        PBT_ASSERT(m.contains(kr));
+        PBT_ASSERT(Conv<V>::back(m.at(kr)) == model[i].second);
+        PBT_ASSERT(Conv<V>::back(m[kr]) == model[i].second);
+        break;
+      }
+      case SET_ALIAS: {
+        if (model.empty())
+          break;
+        size_t i = (size_t)op.b % model.size();
+        if constexpr (std::is_same<K, V>::value) {
+          // the key is a stored *value* (remap[remap[id]] = x): usually absent, so this inserts - possibly reallocating
+          // the storage the reference points into
+          long long k2 = model[i].second;
+          long long idx2 = find(k2);
+          const K &kr = m.at_index(i).second;
+          V nv = Conv<V>::make(v);
+          V &slot = m[kr];
+          slot = nv;
+          if (idx2 < 0) {
+            model.emplace_back(k2, v);
+            if (erasedOnce.count(k2))
+              sawReinsert = true;
+          } else
+            model[idx2].second = v;
+          sawAlias = true;
+        } else {
+          const K &kr = m.at_index(i).first;
+          m[kr] = Conv<V>::make(v);
+          model[i].second = v;
+        }
+        break;
+      }
       }
       // full comparison after every op
       PBT_ASSERT_MSG(m.size() == model.size(), "size " << m.size() << " model " << model.size());
@@ -196,7 +254,7 @@ void flatmap_case(const std::vector<Op> &ops, pbt::Ctx &ctx)
         PBT_ASSERT(Conv<K>::back(m.at_index(j).first) == model[j].first);
         PBT_ASSERT(Conv<V>::back(cm.at_index(j).second) == model[j].second);
       }
-      for (long long kk = 0; kk < 4; ++kk)
+      for (long long kk = 0; kk < 6; ++kk)
         PBT_ASSERT(m.contains(Conv<K>::make(kk)) == (find(kk) >= 0));
       PBT_TRACKED_OK();
     }
@@ -204,6 +262,8 @@ void flatmap_case(const std::vector<Op> &ops, pbt::Ctx &ctx)
       ctx.label("reinsert-after-erase");
     if (sawMidErase)
       ctx.label("erase-non-last");
+    if (sawAlias)
+      ctx.label("key-aliases-own-storage");
     ctx.nt(sawReinsert || sawMidErase);
   }
   PBT_TRACKED_OK();
@@ -235,11 +295,113 @@ struct MParam
   bool query;
 };
 
-static void po_case(const std::vector<Op> &ops, pbt::Ctx &ctx)
+// Parameter names.  Three names carry most of the operations (collisions of operations on one name must be frequent);
+// the others are there for what an implementation might confuse: a name that is a prefix of another, names of equal
+// length differing in the last / first character only, case, the empty name - and, for each of a handful of common
+// 32-bit string hashes, a pair of different names with the same hash (found by birthday search at start-up), since a
+// look-up that compares a cached hash instead of the name is a realistic shortcut.
+static uint32_t h_fnv1a(const std::string &s)
+{
+  uint32_t h = 2166136261u;
+  for (unsigned char c : s)
+    h = (h ^ c) * 16777619u;
+  return h;
+}
+static uint32_t h_fnv1(const std::string &s)
+{
+  uint32_t h = 2166136261u;
+  for (unsigned char c : s)
+    h = (h * 16777619u) ^ c;
+  return h;
+}
+static uint32_t h_djb2(const std::string &s)
+{
+  uint32_t h = 5381;
+  for (unsigned char c : s)
+    h = h * 33 + c;
+  return h;
+}
+static uint32_t h_djb2x(const std::string &s)
+{
+  uint32_t h = 5381;
+  for (unsigned char c : s)
+    h = (h * 33) ^ c;
+  return h;
+}
+static uint32_t h_sdbm(const std::string &s)
+{
+  uint32_t h = 0;
+  for (unsigned char c : s)
+    h = c + (h << 6) + (h << 16) - h;
+  return h;
+}
+static uint32_t h_java(const std::string &s)
+{
+  uint32_t h = 0;
+  for (unsigned char c : s)
+    h = h * 31 + c;
+  return h;
+}
+static uint32_t h_crc32(const std::string &s)
+{
+  uint32_t c = 0xFFFFFFFFu;
+  for (unsigned char ch : s) {
+    c ^= ch;
+    for (int k = 0; k < 8; ++k)
+      c = (c >> 1) ^ (0xEDB88320u & (0u - (c & 1u)));
+  }
+  return ~c;
+}
+static uint32_t h_std32(const std::string &s)
+{
+  return (uint32_t)std::hash<std::string>()(s);
+}
+static uint32_t h_std32hi(const std::string &s)
+{
+  return (uint32_t)(std::hash<std::string>()(s) >> 32);
+}
+static uint32_t h_sum(const std::string &s)
+{
+  uint32_t h = (uint32_t)s.size();
+  for (unsigned char c : s)
+    h += c;
+  return h;
+}
+
+// pools of three names; pool 0 is the plain one
+static const std::vector<std::array<std::string, 3>> &po_pools()
+{
+  static std::vector<std::array<std::string, 3>> pools = [] {
+    const std::string L = "color.with.a.long.parameter.name.to.leave.sso";
+    std::vector<std::array<std::string, 3>> n = {{{"a", L, "b"}}, {{"a", "ab", "abc"}}, {{L, "color.with.a.long.parameter.name.to.leave.ssp", L + "."}},
+        {{L, "dolor" + L.substr(5), "b"}}, {{"a", "A", ""}}, {{"", " ", "a"}}};
+    uint32_t (*hs[])(const std::string &) = {h_fnv1a, h_fnv1, h_djb2, h_djb2x, h_sdbm, h_java, h_crc32, h_std32, h_std32hi, h_sum};
+    for (auto h : hs) {
+      std::unordered_map<uint32_t, std::string> seen;
+      for (int i = 0; i < 2000000; ++i) {
+        std::string s = "geometry" + std::to_string(i % 977) + (i % 3 ? ".position" : ".index") + std::to_string(i / 977);
+        auto r = seen.emplace(h(s), s);
+        if (!r.second && r.first->second != s) {
+          n.push_back({{r.first->second, s, "a"}});
+          break;
+        }
+      }
+    }
+    return n;
+  }();
+  return pools;
+}
+
+using POCase = std::pair<int, std::vector<Op>>;
+static void po_case(const POCase &pc, pbt::Ctx &ctx)
 {
   PO po;
   std::vector<MParam> model;
-  static const char *names[3] = {"a", "color.with.a.long.parameter.name.to.leave.sso", "b"};
+  auto &pools = po_pools();
+  // half of the cases use the plain pool, the others one of the confusable ones
+  size_t pool = (pc.first % 2 == 0) ? 0 : 1 + (size_t)(pc.first / 2) % (pools.size() - 1);
+  auto &names = pools[pool];
+  auto &ops = pc.second;
   auto find = [&](const std::string &n) {
     for (size_t i = 0; i < model.size(); ++i)
       if (model[i].name == n)
@@ -248,7 +410,7 @@ static void po_case(const std::vector<Op> &ops, pbt::Ctx &ctx)
   };
   bool wrongTypeRead = false, removedNonLast = false, typeChange = false;
   for (const Op &op : ops) {
-    std::string n = names[op.a % 3];
+    std::string n = names[(size_t)op.a % 3];
     int ty = (int)(op.b % 4);
     long long v = op.c;
     long long idx = find(n);
@@ -351,8 +513,8 @@ static void po_case(const std::vector<Op> &ops, pbt::Ctx &ctx)
       }
     }
     PBT_ASSERT_MSG(i == model.size(), "fewer parameters (" << i << ") than the model (" << model.size() << ")");
-    for (int j = 0; j < 3; ++j)
-      PBT_ASSERT(po.hasParam(names[j]) == (find(names[j]) >= 0));
+    for (size_t j = 0; j < names.size(); ++j)
+      PBT_ASSERT_MSG(po.hasParam(names[j]) == (find(names[j]) >= 0), "hasParam('" << names[j] << "') is " << po.hasParam(names[j]));
   }
   if (wrongTypeRead)
     ctx.label("wrong-type-read");
@@ -360,6 +522,8 @@ static void po_case(const std::vector<Op> &ops, pbt::Ctx &ctx)
     ctx.label("remove-non-last");
   if (typeChange)
     ctx.label("type-change");
+  if (pool)
+    ctx.label("confusable-names");
   ctx.nt(wrongTypeRead || removedNonLast);
 }
 
@@ -369,6 +533,8 @@ static void register_properties()
   pbt::property<std::vector<Op>>("flatmap_string_int", 1500, ops, flatmap_case<std::string, int>);
   pbt::property<std::vector<Op>>("flatmap_int_string", 1500, ops, flatmap_case<int, std::string>);
   pbt::property<std::vector<Op>>("flatmap_string_tracked", 1500, ops, flatmap_case<std::string, Tracked>);
-  pbt::property<std::vector<Op>>("parameterized_object", 3000, pbt::vec(pbt::genOp(P_NKINDS, 5, 7, 9), 40), po_case);
+  pbt::property<std::vector<Op>>("flatmap_string_string", 1500, ops, flatmap_case<std::string, std::string>);
+  pbt::property<std::vector<Op>>("flatmap_int_int", 1500, ops, flatmap_case<int, int>);
+  pbt::property<POCase>("parameterized_object", 3000, rc::gen::pair(pbt::range<int>(0, 63), pbt::vec(pbt::genOp(P_NKINDS, 5, 7, 9), 40)), po_case);
 }
 PBT_MAIN("C10_flatmap")
